@@ -97,6 +97,9 @@ class Run:
              'wall_s': round(getattr(stats, 'wall_s', 0.0), 3)}
         if bound is not None: g['bound'] = bound
         self.groups.append(g)
+        if os.environ.get('VERIF_VERBOSE'):
+            print('[%6.1fs] %s %s paths=%d q=%s wall=%.1fs' % (time.time() - self.t0, group, bound, stats.paths, stats.queries,
+                                                               getattr(stats, 'wall_s', 0)), file=sys.stderr, flush=True)
         if sample is not None and len(self.samples) < 12:
             self.samples.append(sample)
         if stats.unknown:
